@@ -1256,6 +1256,57 @@ def c09_const_char(base):
     return out
 
 
+UNUSUAL_VALID_SCHEMA = """<?xml version="1.0" encoding="UTF-8"?>
+<sbe:messageSchema xmlns:sbe="http://fixprotocol.io/2016/sbe" package="unusual" id="4294967295" version="20240926001" byteOrder="bigEndian">
+<types>
+    <type name="uInt8" primitiveType="uint8"/>
+    <type name="Counter" primitiveType="uint16"/>
+    <type name="Len32" primitiveType="uint32"/>
+    <type name="K" primitiveType="uint16" presence="constant">7</type>
+    <composite name="messageHeader">
+      <type name="blockLength" primitiveType="uint64"/>
+      <type name="templateId" primitiveType="uint32"/>
+      <type name="schemaId" primitiveType="uint32"/>
+      <type name="version" primitiveType="uint64"/>
+    </composite>
+    <composite name="refDim">
+      <ref name="blockLength" type="Counter"/>
+      <ref name="numInGroup" type="uInt8"/>
+      <type name="numGroups" primitiveType="uint16"/>
+      <type name="numVarDataFields" primitiveType="uint8"/>
+    </composite>
+    <composite name="refData">
+      <ref name="length" type="Len32"/>
+      <type name="varData" primitiveType="uint8" length="0"/>
+    </composite>
+    <set name="flags" encodingType="uInt8"><choice name="lo">0</choice><choice name="hi">7</choice></set>
+    <enum name="side" encodingType="uInt8"><validValue name="buy">1</validValue><validValue name="sell">254</validValue></enum>
+    <composite name="quote">
+      <type name="f" primitiveType="uint8"/>
+      <composite name="px" offset="4"><type name="mantissa" primitiveType="int32"/><type name="exponent" primitiveType="int8"/></composite>
+      <ref name="cnt" type="Counter"/>
+    </composite>
+</types>
+<sbe:message name="empty" id="1"/>
+<sbe:message name="full" id="4294967295">
+  <field name="q" id="1" type="quote"/>
+  <field name="fl" id="2" type="flags"/>
+  <field name="sd" id="3" type="side"/>
+  <field name="k" id="4" type="K"/>
+  <group name="marks" id="10" dimensionType="refDim" blockLength="4">
+    <field name="k" id="1" type="K"/>
+  </group>
+  <group name="legs" id="11" dimensionType="refDim">
+    <field name="sd" id="1" type="side"/>
+    <group name="full" id="12" dimensionType="refDim"><field name="x" id="1" type="uInt8"/></group>
+    <data name="note" id="13" type="refData"/>
+  </group>
+  <data name="memo" id="20" type="refData"/>
+</sbe:message>
+</sbe:messageSchema>
+"""
+
+
 def c09_raw(base, rng, ntrunc=60, nflip=60):
     xml = schema_xml(base).encode()
     out = []
@@ -1280,6 +1331,12 @@ def c09_raw(base, rng, ntrunc=60, nflip=60):
     add("huge-attribute", b'<messageSchema package="' + b"p" * 1000000 + b'" id="1" version="0"/>')
     add("doctype-entities", b'<?xml version="1.0"?><!DOCTYPE a [<!ENTITY x "xxxxxxxxxx"><!ENTITY y "&x;&x;&x;&x;&x;&x;&x;&x;">]>' + xml)
     add("cdata-pi", xml.replace(b"<types>", b"<types><![CDATA[ <type/> ]]><?include href='x'?><!-- c -->"))
+    # a VALID schema made of unusual shapes (every code-generation path must survive it): enum / set whose
+    # encodingType names a <type>, ref-typed level header members named differently from their types, a nested
+    # composite with its own offset, fields constant through their type, an empty message, a constant-only group with
+    # an explicit blockLength, 64-bit header members with values beyond 2^32, <data> with a uint32 length
+    out.append(Input("raw", "valid-unusual-shapes", {"schema.xml": UNUSUAL_VALID_SCHEMA.encode()}, expect="accept",
+                     note="valid schema built from rarely used shapes"))
     for i in range(40):
         n = 1 + rng.below(300)
         add("random-bytes", bytes(rng.below(256) for _ in range(n)))
